@@ -29,6 +29,9 @@ def sim_cases():
         g.op_apply(lost=True), g.op_apply(lost=True), g.op_map(), g.op_imap(),
         g.work, g.work, g.work, g.work, g.feed, g.tick, g.tick, g.tick,
         g.adv, g.adv, g.adv, g.die, g.dier, g.dier, g.dier, g.die_any, g.wexit,
+        # the shutdown path must report losses too (close, then a running
+        # worker dies with nothing queued)
+        g.close, g.dier0, g.lastgasp,
     ]
     return g.history(cfg, ops, max_ops=70, min_ops=15)
 
